@@ -52,6 +52,13 @@ CHECKS = {
    text="Histories of text edits interleaved with mark/unmark over overlapping ranges, 2 names, null values, all expand settings, 2-3 replicas, merges, isolated transactions, invalid ranges, reads at historical heads.", ref="§6 C25"),
  "C26": dict(cat="model_checking", tech="TLA+ trace validation (TLC, Trace_Interp): remembered cursors resolved at the end and at historical heads must equal OpSet!CursorPos; get_cursor_position(get_cursor(i)) = i in every projected state, for both move modes and the byte/string forms",
    text="List and text histories with deletes, puts on elements, concurrent edits and merges; cursors of both move modes taken at random points and resolved on every replica later and at random antichains of heads.", ref="§6 C26"),
+ "C30": dict(cat="model_checking", tech="TLA+ trace validation (TLC, Trace_Interp IdProbe): every captured object id, in every serialised form and with stale/perturbed actor-index hints, must read and edit OpSet!ObjView of the object with that op id in the replica's own history, or fail when the replica lacks it",
+   text="Histories in which every new actor sorts before the existing ones, ids captured on random replicas and used on all replicas after merges, loads and forks.", ref="§6 C30"),
+ "C40": dict(cat="model_checking", tech="TLA+ trace validation (TLC, Trace_Interp Migrate): the migrated document is checked register by register against the op-based interpretation of the original history plus the decoded added change",
+   text="String-rich histories (conflicted registers, deleted strings, nested and deleted objects) saved and loaded with StringMigration::ConvertToText on every replica.", ref="§6 C40"),
+ "C37": dict(cat="exploration", tech="TLA+ trace validation (TLC, Trace_Args): a generated catalogue of invalid/stale/foreign/extreme arguments for every public read, edit, historical read and head-taking call, executed on replicas reached by random programs; plus the no-panic predicate over every event of the 24 other scenario families",
+   text="Each bad call is logged with the class of its argument as the generator knows it; the trace spec requires no panic ever, an error or empty result for invalid arguments, a still loadable document, and acceptance of the library's own patches by hydrate::Value::apply_patches.", ref="§6 C37",
+   note="assumes: panics are observed with catch_unwind in a build with debug assertions and overflow checks on (the repository's test profile); aborts would surface as tool errors; the catalogue is finite (about 700 calls per replica), not all argument combinations"),
 }
 
 NA_REASON = "check not built yet in this session (framework under construction; see DESIGN.md §10 build order)"
